@@ -286,6 +286,9 @@ pub fn block(name: &str, c: &AlphaCtx, out: &mut Vec<Op>) {
                 out.push(Op::arg(OpK::ShrinkTo, (i64::MAX as u64) - j));
                 out.push(Op::arg(OpK::ShrinkTo, (i64::MAX as u64) + 1 + j));
             }
+            for h in 0..4 {
+                out.push(Op::arg(OpK::ExtendHint, h));
+            }
             for sh in [60u32, 61, 62, 63] {
                 out.push(Op::arg(OpK::TryReserve, 1u64 << sh));
                 out.push(Op::arg(OpK::TryReserve, (1u64 << sh) - 1));
